@@ -796,7 +796,8 @@ def run_client_case(case):
     from Pyro5 import config
     from Pyro5.callcontext import current_context as cc
     world = World()
-    srv = start_server({"server": case["server"], "pool": POOL_MAX, "dmn": case["dmn"], "dmn_keep": case.get("dmn_keep")}, world)
+    # a generous pool: proxies that are dropped free their worker asynchronously, a refused connection is not what is tested here
+    srv = start_server({"server": case["server"], "pool": 12, "dmn": case["dmn"], "dmn_keep": case.get("dmn_keep")}, world)
     me = threading.get_ident()
     seen = []      # (msg type, annotation ids) of every message received by this thread
     orig_recv = protocol.recv_stub
@@ -855,7 +856,11 @@ def run_client_case(case):
                 pass
             after = ids_of(cc.response_annotations)
             starts = [j for j, (t, a) in enumerate(seen) if t == "invoke"]
-            during = seen[starts[-1]:] if starts else []        # what the last _pyroInvoke of this operation received
+            if not starts:
+                # the operation failed before _pyroInvoke was entered (e.g. the connection for the metadata could not be
+                # made): no call took place, so there is nothing the property speaks about
+                continue
+            during = seen[starts[-1]:]                          # what the last _pyroInvoke of this operation received
             hs = [a for (t, a) in during if t == protocol.MSG_CONNECTOK]
             rep = [a for (t, a) in during if t == protocol.MSG_RESULT]
             if k == "batch" and len(rep) > 1:
